@@ -159,6 +159,53 @@ Proof.
   - split; [eapply ti_vsock_new; exact H0|]. split; [eapply sp_vsock_new; exact H0|eapply optc_vsock_new; exact H0].
 Qed.
 
+(* ================================================================== "no NEW payload into a zero window"
+   outside the known class D16, for the polls that end open: with a zero window and outside recovery the
+   only ST_DATA of the poll is the one the RTO branch sent (c05_zero_window_strict_or_d16_open) *)
+Theorem c05_zero_window_strict_or_d16_open_step : forall cfg (s : vsock) o,
+  ti s -> C05_Segs.sp s -> optc cfg s -> c05_zero_window_strict_or_d16_open cfg (fstep_of cci s o) = true.
+Proof.
+  intros cfg s o Hti Hsp Hopt. unfold c05_zero_window_strict_or_d16_open.
+  destruct (post_open cfg (fstep_of cci s o)) eqn:Hopen; [|reflexivity].
+  destruct o; try (unfold c05_zero_window_strict; rewrite fstep_of_event; reflexivity).
+  destruct (poll cci (VSockRec.set_sends s script)) as [s' r] eqn:E.
+  rewrite (fstep_of_poll cci s script s' r E) in *.
+  unfold c05_zero_window_strict, c05_d16_class2, post_open in *.
+  cbn [fs_event fs_result fs_pre fs_post fs_now] in *.
+  destruct r; try reflexivity.
+  destruct (poll_pending_zw cci s script s' Hti Hsp E) as (He & HJ & HW).
+  destruct (poll_pframe0 cci _ _ _ E) as (Po & _).
+  rewrite phase_recovering_fp.
+  cbn [fp_of_vsock f_last_remote_window f_rto_retx f_state f_t_retransmit f_last_sent_seq_nr] in *.
+  destruct (Z.eqb_spec (v_last_remote_window s') 0) as [Hw|Hw]; [|reflexivity].
+  destruct (is_recovering (v_recovery s')) eqn:Hrec; [reflexivity|]. cbn [negb andb].
+  destruct (Z.of_nat (length (f_segs (fp_of_vsock cci s))) <=? 1024); [|reflexivity].
+  rewrite data_filter_out.
+  assert (HZ : ZW s').
+  { destruct HW as [HW|HW]; [|exact HW]. unfold SC in HW. unfold optc in Hopt.
+    rewrite Po in HW. cbn [v_opts VSockRec.set_sends] in HW. rewrite Hopt in HW. rewrite HW in Hopen. discriminate. }
+  destruct HJ as [A1 A2 A3|A1 A2|p A1 A2 A3 A4 A5 A6].
+  - rewrite A1. reflexivity.
+  - destruct HZ as [HZ|[HZ|[HZ|HZ]]]; [rewrite HZ; reflexivity|lia| |contradiction].
+    unfold RECb in HZ. congruence.
+  - rewrite A1. cbn [rev app map forallb filter].
+    destruct (was_sent_before (fp_of_vsock cci s) (fpacket_of p)); [reflexivity|].
+    cbn [andb negb orb fpacket_of fq_hdr]. rewrite He, A3, A2, Z.eqb_refl. cbn [andb].
+    apply orb_true_iff. destruct A6 as [A6|[A6 _]]; [left|right]; apply Z.eqb_eq; exact A6.
+Qed.
+
+Theorem c05_zero_window_strict_or_d16_open_trace : forall mk c (s0 : vsock) ops,
+  vsock_new cci mk c = Some s0 ->
+  forallb (c05_zero_window_strict_or_d16_open c) (ftrace cci s0 ops) = true.
+Proof.
+  intros mk c s0 ops H0.
+  apply (ftrace_forallb_live cci (fun s => ti s /\ C05_Segs.sp s /\ optc c s)).
+  - intros s o (H1 & H2 & H3). apply c05_zero_window_strict_or_d16_open_step; assumption.
+  - intros s o (H1 & H2 & H3) Hl. split; [apply ti_vstep; exact H1|].
+    split; [apply sp_vstep_live; assumption|apply optc_vstep; exact H3].
+  - split; [eapply ti_vsock_new; exact H0|]. split; [eapply sp_vsock_new; exact H0|eapply optc_vsock_new; exact H0].
+Qed.
+
 End WithCC.
 
 (* ================================================================== c05_rto_exit_ok is FALSE of the model
